@@ -1,5 +1,6 @@
 import PhpVerif.Model.History
 import PhpVerif.Gen.Facts
+import PhpVerif.Spec.SharedState
 /-
 C11 — Concurrent use on different inputs is safe and deterministic.
 
@@ -14,6 +15,11 @@ open PhpVerif
 
 /-- OBLIGATION (T-facts): library code never writes a package-level variable. -/
 theorem no_shared_writes : Gen.globalWritesLib = [] := by decide
+
+/-- OBLIGATION (T-facts): the library declares exactly the package-level variables the model knows to be
+    read-only (tables, sentinel errors, range constants); a new one — a pool, a cache — is shared state
+    whether or not any statement assigns to it -/
+theorem lib_package_vars_pinned : Gen.libPackageVars = Spec.libPackageVars := by decide
 
 /-- there are package-level variables at all (tables, error values): the fact is not vacuous -/
 example : 0 < Gen.nPackageVars := by decide
